@@ -266,6 +266,11 @@ def intnull_case(draw, variant):
     if not any(nulls):
         nulls[draw(st.integers(0, n - 1))] = True
     v["vals"] = [None if z else x for x, z in zip(v["vals"], nulls)]
+    labs = sorted({x for x in keys[0]["vals"] if x is not None}, key=repr)
+    if labs and draw(st.booleans()):
+        # a group whose integer values are all null must still be listed with the neutral result
+        victim = draw(st.sampled_from(labs))
+        v["vals"] = [None if k == victim else x for x, k in zip(v["vals"], keys[0]["vals"])]
     return {"n": n, "keys": keys, "vals": [v], "vc": draw(st.sampled_from(["series_nullable", "pd_arrow", "pl"])),
             "op": draw(st.sampled_from(["min", "max", "first", "last", "sum", "count", "cummax", "cummin"])), "mask": None, "sort": True}
 
@@ -288,18 +293,31 @@ def intnull_check(case, ctx):
         for i, (e, g) in enumerate(zip(exp, got)):
             if e == ("skip",) or e is None:
                 continue
-            if g is None or float(g) != float(e) or int(g) != e:
-                raise Violation(f"intnull:value:{op}", f"row {i}: exact {e} got {g!r} (dtype {dt})", extra={"intnull": True})
+            if g is None or float(g) != float(e):
+                raise Violation(f"intnull:value:{op}", f"row {i}: exact {e} got {g!r} (dtype {dt})")
+            if int(g) != e:
+                raise Violation(f"intnull:inexact:{op}", f"row {i}: exact {e} got {g!r} (dtype {dt})", extra={"intnull": True})
     else:
         labels, pos, groups = gbops.model_groups(case)
         exp = gbops.expected_reduction(case, op, vspec, groups)
-        gmap = dict(zip(data.index_labels(res.index), got))
+        got_labels = data.index_labels(res.index)
+        if sorted(got_labels, key=repr) != sorted(exp, key=repr):
+            raise Violation(f"intnull:labels:{op}", f"labels {got_labels}, observed groups {list(exp)} (a group whose values are all null must not disappear)")
+        gmap = dict(zip(got_labels, got))
         for lab, e in exp.items():
             g = gmap.get(lab)
             if e is None:
+                if g is not None and not (isinstance(g, float) and g != g):
+                    raise Violation(f"intnull:value:{op}", f"label {lab}: all values null, expected null got {g!r}")
                 continue
-            if g is None or int(g) != e or float(g) != float(e):
-                raise Violation(f"intnull:value:{op}", f"label {lab}: exact {e} got {g!r} (dtype {dt})", extra={"intnull": True})
+            if g is None:
+                raise Violation(f"intnull:value:{op}", f"label {lab}: exact {e} got null")
+            gv_ = [abs(pv[p_]) for p_ in groups[lab] if pv[p_] is not None]
+            if abs(float(g) - float(e)) > 4 * (len(gv_) + 1) * gbops.EPS64 * float(sum(gv_)):
+                raise Violation(f"intnull:value:{op}", f"label {lab}: exact {e} got {g!r} (dtype {dt})")
+            if int(g) != e:
+                # right up to float64 rounding: the known float detour
+                raise Violation(f"intnull:inexact:{op}", f"label {lab}: exact {e} got {g!r} (dtype {dt})", extra={"intnull": True})
     if op in ("min", "max", "first", "last", "cummax", "cummin"):
         want = expected_logical(vspec, case["vc"])
         lg = logical_dtype(dt)
